@@ -178,6 +178,13 @@ def argv_of(inv):
     return pre + ["validate"] + [x for g in groups for x in g]
 
 
+def cmdline(inv):
+    s = " ".join(argv_of(inv))
+    if inv.get("stdin") is not None and DOCS.get(inv["stdin"]) not in (None, DIR):
+        s += " <stdin:%s=%s" % (inv["stdin"], DOCS[inv["stdin"]][:24].hex())
+    return s
+
+
 ANSI = re.compile(r"\x1b\[[0-9;]*m")
 RE_OK = re.compile(r'^\[INFO\] Validation of "d/([a-z0-9_]+)\.([jcs])(\d)" is successful$')
 RE_FAIL = re.compile(r'^\[ERROR\] Validation of "d/([a-z0-9_]+)\.([jcs])(\d)" failed: ')
@@ -650,33 +657,33 @@ def run(tier, seed):
                 distinct.add(json.dumps({k: inv[k] for k in ("ci", "hdr", "feats", "schema", "j", "c", "s", "stdin")}, sort_keys=True))
             # (1) model vs binary
             if o["canon"] != m:
-                res.violation("cddl %s: observed `%s`, model of cli.rs `%s`" % (" ".join(argv_of(inv)), o["canon"], m),
+                res.violation("cddl %s: observed `%s`, model of cli.rs `%s`" % (cmdline(inv), o["canon"], m),
                               replay_dict(inv, lib, o["canon"], m, exp, out))
                 continue
             # (2) side observations that tie clap / logging
             if o["notes"]:
-                res.violation("cddl %s: %s" % (" ".join(argv_of(inv)), o["notes"][0]), replay_dict(inv, lib, o["canon"], m, exp, out))
+                res.violation("cddl %s: %s" % (cmdline(inv), o["notes"][0]), replay_dict(inv, lib, o["canon"], m, exp, out))
                 continue
             if inv["cmd"] == "validate":
                 want = None if inv["feats"] is None else "[" + ", ".join('"%s"' % f for f in inv["feats"]) + "]"
                 if o["feats_logged"] != want:
-                    res.violation("cddl %s: enabled features logged as %s, passed %s" % (" ".join(argv_of(inv)), o["feats_logged"], want),
+                    res.violation("cddl %s: enabled features logged as %s, passed %s" % (cmdline(inv), o["feats_logged"], want),
                                   replay_dict(inv, lib, o["canon"], m, exp, out))
                     continue
                 n_feat_logged += want is not None
             if rc not in (0, 1):
-                res.violation("cddl %s: exit status %d (clap error or panic)" % (" ".join(argv_of(inv)), rc),
+                res.violation("cddl %s: exit status %d (clap error or panic)" % (cmdline(inv), rc),
                               replay_dict(inv, lib, o["canon"], m, exp, out))
                 continue
             if rc == 1 and o["errline"] is None:
-                res.violation("cddl %s: exit status 1 without an `Error:` line" % " ".join(argv_of(inv)),
+                res.violation("cddl %s: exit status 1 without an `Error:` line" % cmdline(inv),
                               replay_dict(inv, lib, o["canon"], m, exp, out))
                 continue
             # (3) the property: expectation with the same features vs binary
             if o["canon"] != exp:
                 dropped = features_dropped(inv, slots, o["canon"])
                 res.violation("cddl %s: observed `%s`, but the library calls with the same features give `%s`%s" % (
-                    " ".join(argv_of(inv)), o["canon"], exp,
+                    cmdline(inv), o["canon"], exp,
                     " (slots %s show the verdict of the call without --features)" % ",".join(dropped) if dropped else ""),
                     replay_dict(inv, lib, o["canon"], m, exp, out))
 
@@ -747,7 +754,7 @@ def replay(path):
     try:
         lib = Lib(drv)
         raw, obs, model = evaluate(cli, lib, orc, root, [inv])
-        print("argv       : cddl " + " ".join(argv_of(inv)))
+        print("argv       : cddl " + cmdline(inv))
         print("output     :\n" + ANSI.sub("", raw[0][1]))
         print("observed   :", obs[0]["canon"])
         print("model      :", model[0])
